@@ -485,7 +485,7 @@ class Ctx:
         self.solver = z3.Solver()
         self.solver.set("timeout", timeout_ms)
         self.angles: list[Angle] = []
-        self.roots: list[Val] = []  # candidate non-negative roots
+        self.roots: list[Val] = [Val(1)]  # candidate non-negative roots
         self.fresh_sqrts = []
         self.fresh = 0
         self.memo = {}
